@@ -170,6 +170,30 @@ def jobs_for(rng, thorough):
                     for node in ([v for v in range(n)] if algo == "deltaStep" and t == T[-1] and delta == 2 else rng.sample(range(n), 1)):
                         jobs.append((("d", g), adj, "sssp", ["--algo=" + algo, "--delta=%d" % delta, "-t=%d" % t, "--startNode=%d" % src, "--reportNode=%d" % node],
                                      dict(k="sssp", src=src, node=node, variant="%s/d%d/t%d" % (algo, delta, t))))
+    # hub graphs: the start node has more out-edges than one edge tile of the tiled variants (256 for bfs, 512 for sssp), its edge
+    # list is followed in the file by the edge lists of its neighbours, which lead to nodes two and three hops away
+    for g in range(3 if thorough else 2):
+        deg = rng.choice([257, 300, 511, 513, 700, 1025, 1300]) if g else 600
+        n = deg + 1 + 40
+        adj = [[] for _ in range(n)]
+        for v in range(1, deg + 1):
+            adj[0].append([v, rng.randrange(1, 10)])
+        for v in range(1, 30):
+            adj[v].append([deg + 1 + rng.randrange(40), rng.randrange(1, 10)])
+        for v in range(deg + 1, n - 1):
+            if rng.random() < .5:
+                adj[v].append([v + 1, rng.randrange(1, 10)])
+        far = [deg + 1 + rng.randrange(40) for _ in range(3)] + [1 + rng.randrange(deg)]
+        for algo in ["AsyncTile", "Async", "SyncTile", "Sync"]:
+            for ex in ["SERIAL", "PARALLEL"]:
+                for t in ([4] if ex == "PARALLEL" else [1]):
+                    for node in far:
+                        jobs.append((("h", g), adj, "bfs", ["--algo=" + algo, "--exec=" + ex, "-t=%d" % t, "--startNode=0", "--reportNode=%d" % node],
+                                     dict(k="bfs", src=0, node=node, variant="%s/%s/t%d" % (algo, ex, t))))
+        for algo in ["deltaTile", "deltaStep", "serDeltaTile", "dijkstraTile", "topoTile"]:
+            for node in far:
+                jobs.append((("h", g), adj, "sssp", ["--algo=" + algo, "--delta=3", "-t=4", "--startNode=0", "--reportNode=%d" % node],
+                             dict(k="sssp", src=0, node=node, variant="%s/d3/t4" % algo)))
     for g in range(ng):
         adj = gen_symmetric(rng, simple=False)
         for algo in ["Async", "EdgeAsync", "EdgetiledAsync", "BlockedAsync", "LabelProp", "Serial", "Sync", "Afforest", "EdgeAfforest", "EdgetiledAfforest"]:
@@ -177,6 +201,16 @@ def jobs_for(rng, thorough):
                 jobs.append((("s", g), adj, "cc", ["--symmetricGraph", "--algo=" + algo, "-t=%d" % t], dict(k="cc", variant="%s/t%d" % (algo, t))))
         for t in (T + [2] if edges_of(adj) else []):     # (the application refuses a graph without edges)
             jobs.append((("s", g), adj, "boruvka", ["--symmetricGraph", "-t=%d" % t], dict(k="mst", variant="t%d" % t)))
+    for g in range(ng):
+        # triangle counting also on graphs with self loops (a loop is not part of any triangle)
+        adj = gen_symmetric(rng, simple=True, weighted=False)
+        for v in range(len(adj)):
+            if rng.random() < .4:
+                adj[v] = sorted(adj[v] + [[v, 1]])
+        for algo in ["nodeiterator", "edgeiterator", "orderedCount"]:
+            for t in T:
+                for rel in ([], ["--relabel"]):
+                    jobs.append((("ul", g), adj, "triangles", ["--symmetricGraph", "--algo=" + algo, "-t=%d" % t] + rel, dict(k="tri", variant="%s/t%d%s/loops" % (algo, t, "/relabel" if rel else ""))))
     for g in range(ng):
         adj = gen_symmetric(rng, simple=True, weighted=False)
         for algo in ["nodeiterator", "edgeiterator", "orderedCount"]:
@@ -209,6 +243,9 @@ def jobs_for(rng, thorough):
             for ex in ["--serial", "--parallel"]:
                 for t in (T if ex == "--parallel" else [1]):
                     jobs.append((("b", g), adj, "mcm", ["--inputType=fromFile", "--symmetricGraph", algo, ex, "-t=%d" % t], dict(k="mcm", variant="%s/%s/t%d" % (algo, ex, t))))
+                    if algo != "--pfpAlgo":    # repeated rounds on what is left (the first round is judged; later rounds by the application's own verification)
+                        jobs.append((("b", g), adj, "mcm", ["--inputType=fromFile", "--symmetricGraph", "--runIteratively", algo, ex, "-t=%d" % t],
+                                     dict(k="mcm", variant="%s/%s/t%d/iter" % (algo, ex, t))))
     return jobs
 
 
